@@ -603,6 +603,24 @@ def c28_worker(args):
                     ch = mod.curry_hash(*[p.tree_hash() for p in pargs])
                     if ch != ref_tree_hash(ref_deser(bytes(curried))[0]):
                         r.violation(canon, "curry_hash != tree hash of the curried program")
+                    # the treehasher's public helpers called directly, twice, with ONE caller-owned list: same result
+                    # both times, equal to the reference, and the caller's list is left untouched
+                    th = Program.curry_treehasher
+                    hashes = [p.tree_hash() for p in pargs]
+                    owned = list(hashes)
+                    v1 = th.curried_values_tree_hash(owned)
+                    v2 = th.curried_values_tree_hash(owned)
+                    qmh = th.calculate_hash_of_quoted_mod_hash(mod.tree_hash())
+                    ch2 = th.curry_and_treehash(qmh, *owned)
+                    if owned != hashes:
+                        r.violation(canon + " curried_values_tree_hash", "the caller's argument list was modified")
+                    if v1 != v2 or ch2 != ch:
+                        r.violation(canon + " curried_values_tree_hash", "a second call with the same list / curry_and_treehash afterwards gives a different hash")
+                    env_tree = PyNode(atom=b"\x01")
+                    for a in reversed(args):
+                        env_tree = PyNode(pair=(PyNode(atom=b"\x04"), PyNode(pair=(PyNode(pair=(PyNode(atom=b"\x01"), ref_deser(a)[0])), PyNode(pair=(env_tree, PyNode(atom=b"")))))))
+                    if v1 != ref_tree_hash(env_tree):
+                        r.violation(canon + " curried_values_tree_hash", "differs from the tree hash of the curried environment (c (q . A1) (c (q . A2) ... 1))")
                     un = curried.uncurry()
                     if bytes(un[0]) != m or [bytes(x) for x in un[1]] != list(args):
                         r.violation(canon, f"uncurry(curry(m, args)) = ({bytes(un[0]).hex()}, {[bytes(x).hex() for x in un[1]]})")
